@@ -96,6 +96,9 @@ func cacheless(c SrvCfg) SrvCfg {
 func runSeq(owners ...string) func(t *testing.T, scAny any, trace bool) *Outcome {
 	return func(t *testing.T, scAny any, trace bool) *Outcome {
 		sc := scAny.(*SeqScn)
+		if sc.Direct != nil {
+			return runHandleDirect(t, sc, trace, owners)
+		}
 		o := &Outcome{}
 		res := Bubble(t, sc.Sched.config(trace), nil, func() {
 			simrt.Event("scenario %x", simrt.Hash(hashBytes(mustJSON(sc))))
@@ -192,6 +195,9 @@ func clip(s string, n int) string {
 // shrinkSeq: drop operations (ddmin-style chunks, then singles), drop tree entries, simplify knobs.
 func shrinkSeq(scAny any) []any {
 	sc := scAny.(*SeqScn)
+	if sc.Direct != nil {
+		return shrinkHandleDirect(sc)
+	}
 	var out []any
 	cp := func() *SeqScn {
 		c := *sc
@@ -499,8 +505,11 @@ func genC01(r *simrt.Rand, tier string) any {
 			sc.Ops = append(sc.Ops, Op{Op: "READ", H: h, Off: interestingOffset(r, size, huge), Count: interestingCount(r, sc.Cfg.TransferSize)})
 		case 2:
 			ns := interestingOffset(r, size, false)
-			sc.Ops = append(sc.Ops, Op{Op: "SETATTR", H: h, SA: SA{Size: &ns}})
-			sizes[p] = ns
+			g := r.Pick([]int{70, 15, 15})
+			sc.Ops = append(sc.Ops, Op{Op: "SETATTR", H: h, SA: SA{Size: &ns}, Guard: g})
+			if g != 2 {
+				sizes[p] = ns
+			}
 		case 3:
 			sc.Ops = append(sc.Ops, Op{Op: "GETATTR", H: h})
 		case 4:
@@ -547,7 +556,73 @@ func genNamespaceOps(r *simrt.Rand, sc *SeqScn, sh *shadow, n int, withBadNames 
 	for i := 0; i < n; i++ {
 		d := sh.handleOf(mDir)
 		dp := sh.hpath[d]
-		switch r.Pick([]int{18, 8, 8, 5, 10, 8, 10, 10, 6, 6, 3, 5, 3}) {
+		switch r.Pick([]int{18, 8, 8, 5, 10, 8, 10, 10, 6, 6, 3, 5, 3, 3}) {
+		case 13:
+			// motif: entries (negative and positive) are cached below a directory name, the
+			// name then changes identity (removed and renamed-into, renamed-over, removed and
+			// re-made), and the names below it are looked up again
+			mkdir := func(name string) int {
+				sc.Ops = append(sc.Ops, Op{Op: "MKDIR", H: 0, Name: name})
+				if _, ok := sh.kind["/"+name]; !ok {
+					sh.kind["/"+name] = mDir
+					sh.hpath = append(sh.hpath, "/"+name)
+					return len(sh.hpath) - 1
+				}
+				for i, p := range sh.hpath {
+					if p == "/"+name {
+						return i
+					}
+				}
+				return 0
+			}
+			a, dd := "m"+nameAlphabet[r.Int(len(nameAlphabet))], "n"+nameAlphabet[r.Int(len(nameAlphabet))]
+			hA, hD := mkdir(a), mkdir(dd)
+			x := nameAlphabet[r.Int(len(nameAlphabet))]
+			sc.Ops = append(sc.Ops, Op{Op: "CREATE", H: hA, Name: x})
+			if _, ok := sh.kind["/"+a+"/"+x]; !ok && sh.kind["/"+a] == mDir {
+				sh.kind["/"+a+"/"+x] = mFile
+				sh.hpath = append(sh.hpath, "/"+a+"/"+x)
+			}
+			sc.Ops = append(sc.Ops, Op{Op: "LOOKUP", H: hD, Name: x}) // negative entry below the destination name
+			if r.Pct(30) {
+				sc.Ops = append(sc.Ops, Op{Op: "READDIR", H: hD, Count: 4096})
+			}
+			variant := r.Int(3)
+			if variant != 1 {
+				sc.Ops = append(sc.Ops, Op{Op: "RMDIR", H: 0, Name: dd})
+				if len(sh.childrenOf("/"+dd)) == 0 {
+					sh.remove("/" + dd)
+				}
+			}
+			if variant == 2 {
+				hD = mkdir(dd)
+				sc.Ops = append(sc.Ops, Op{Op: "CREATE", H: hD, Name: x})
+				if _, ok := sh.kind["/"+dd+"/"+x]; !ok && sh.kind["/"+dd] == mDir {
+					sh.kind["/"+dd+"/"+x] = mFile
+					sh.hpath = append(sh.hpath, "/"+dd+"/"+x)
+				}
+			} else {
+				sc.Ops = append(sc.Ops, Op{Op: "RENAME", H: 0, Name: a, H2: 0, Name2: dd})
+				if sh.kind["/"+a] == mDir && len(sh.childrenOf("/"+dd)) == 0 {
+					moved := map[string]string{}
+					for q, kk := range sh.kind {
+						if q == "/"+a || strings.HasPrefix(q, "/"+a+"/") {
+							moved["/"+dd+q[len("/"+a):]] = kk
+						}
+					}
+					sh.remove("/" + a)
+					sh.remove("/" + dd)
+					for q, kk := range moved {
+						sh.kind[q] = kk
+					}
+				}
+			}
+			sc.Ops = append(sc.Ops, Op{Op: "LOOKUP", H: hD, Name: x})
+			sc.Ops = append(sc.Ops, Op{Op: "LOOKUP", H: 0, Name: dd})
+			if sh.kind["/"+dd] == mDir {
+				sh.hpath = append(sh.hpath, "/"+dd)
+			}
+			sc.Ops = append(sc.Ops, Op{Op: "READDIR", H: hD, Count: 4096})
 		case 0: // LOOKUP
 			name := sh.name(dp, 60)
 			sc.Ops = append(sc.Ops, Op{Op: "LOOKUP", H: d, Name: name})
@@ -833,6 +908,9 @@ func init() {
 
 func genC05(kind string) func(r *simrt.Rand, tier string) any {
 	return func(r *simrt.Rand, tier string) any {
+		if r.Pct(25) {
+			return genHandleDirect(r, kind)
+		}
 		sc := &SeqScn{Kind: kind, Cfg: genCfg(r), Cred: RootCred, ThinkM: []int{0, 0, 1, 50}[r.Int(4)], Sched: SeqSched(r.Uint64())}
 		sc.Cfg.MaxHandles = []int{1, 2, 3, 5, 10, 16, 32}[r.Int(7)]
 		// a wide tree: many more paths than handles
@@ -905,11 +983,16 @@ func genC05(kind string) func(r *simrt.Rand, tier string) any {
 var advChars = []string{"a", ".", "/", "\\", "\x00", " ", "\x80"}
 
 func advName(r *simrt.Rand) string {
-	switch r.Int(12) {
+	switch r.Int(14) {
 	case 0:
-		return strings.Repeat("n", 255)
+		return strings.Repeat("n", 254+r.Int(2))
 	case 1:
-		return strings.Repeat("n", 256)
+		return strings.Repeat("n", 256+r.Int(2))
+	case 12:
+		// the limit is in bytes, not characters: multi-byte names either side of 255 bytes
+		return []string{strings.Repeat("\u00e9", 127) + "a", strings.Repeat("\u00e9", 128), strings.Repeat("\u20ac", 85), strings.Repeat("\u20ac", 86), strings.Repeat("\u00e9", 200)}[r.Int(5)]
+	case 13:
+		return strings.Repeat("\u00e9", 1+r.Int(3))
 	case 2:
 		return strings.Repeat("ab/", 1+r.Int(40)) + ".."
 	case 3:
@@ -947,7 +1030,10 @@ func genC07(r *simrt.Rand, tier string) any {
 	sc.Tree = genTree(r, 1+r.Int(3), 1+r.Int(2), r.Int(2))
 	if r.Pct(30) {
 		// a pre-existing symlink whose target escapes: READLINK must not hand it out
-		sc.Tree = append(sc.Tree, TreeEnt{Path: "/esc", Kind: "symlink", Target: []string{"../../etc", "a/../../x", "/abs"}[r.Int(3)]})
+		sc.Tree = append(sc.Tree, TreeEnt{Path: "/esc", Kind: "symlink", Target: []string{"../../etc", "a/../../x", "/abs", "a/../b", "a/b/../../c", "a/..", "./..", "..", "a/./../b/.."}[r.Int(9)]})
+	}
+	if r.Pct(20) {
+		sc.Tree = append(sc.Tree, TreeEnt{Path: "/esc2", Kind: "symlink", Target: []string{"a/../b", "x/y/../z", "..a", "a..", "a/..b/c"}[r.Int(5)]})
 	}
 	sh := newShadow(r, sc.Tree)
 	n := 10 + r.Int(30)
@@ -1231,7 +1317,7 @@ func init() {
 		genC26, "C26.")
 	seqProp("C23", "one case = FSINFO followed by READ and WRITE with counts drawn from {1, preferred, max-1, max} of the advertised limits, for a per-run configured TransferSize (1..65536 and default) optionally changed at runtime between FSINFO and the I/O, on a full record-marked connection (the 1 MiB record limit is in play); oracle: READ before EOF returns >= 1 correct byte, WRITE is accepted (never NFS3ERR_INVAL, never a dropped connection) and reports its count, rtpref<=rtmax, wtpref<=wtmax; non-trivial = at least one FSINFO-driven I/O; distinct by event digest",
 		genC23, "C23.")
-	seqProp("C05", "one case = a history of 10-50 handle-issuing calls (MNT, LOOKUP, CREATE, MKDIR, SYMLINK, READDIRPLUS) over 2-50 paths with the handle table limit drawn from {1,2,3,5,10,16,32}, each returned handle used at once in GETATTR, plus re-use of older handle values; oracle: the immediately following GETATTR succeeds and every backend call it makes is for the path the handle was issued for; accessor check after every operation: live handle count <= limit and every live path has exactly one handle value; plus a direct-drive family on FileHandleMap (see C05 direct); non-trivial = at least 2 eviction rounds; distinct by event digest",
+	seqProp("C05", "one case = a history of 10-50 handle-issuing calls (MNT, LOOKUP, CREATE, MKDIR, SYMLINK, READDIRPLUS) over 2-50 paths with the handle table limit drawn from {1,2,3,5,10,16,32}, each returned handle used at once in GETATTR, plus re-use of older handle values; oracle: the immediately following GETATTR succeeds and every backend call it makes is for the path the handle was issued for; accessor check after every operation: live handle count <= limit and every live path has exactly one handle value; 25% of the cases instead drive the real FileHandleMap directly: 2-4 tasks issuing 2-7 Allocate/Get/Release/ReleaseAll calls over 1-4 paths with limit 1..100 under the seeded scheduler (also with -race), one atomic snapshot of both maps after every call (ids and paths in bijection, count <= limit, an issued value denotes its path); non-trivial = at least 2 eviction rounds (request histories) or >= 4 calls from >= 2 tasks (direct); distinct by event digest",
 		genC05("C05"), "C05.")
 	seqProp("C06", "one case = as C05 plus Unexport/re-mount and REMOVE in mid-history, with requests re-using every previously issued handle value; oracle: a request using a handle value either fails (NFS3ERR_STALE/BADHANDLE/NOENT) or every backend call it makes is for the path that value was FIRST issued for; probe handle_value_reissued_for_other_path counts the enabling condition; non-trivial = at least one old handle re-used after an eviction round; distinct by event digest",
 		genC05("C06"), "C06.", "C05.")
